@@ -11,7 +11,8 @@
 //	          removal / idempotence / re-add on the same node with a bystander
 //	fulltrie  all 121 queries in one trie (two clients per node), staged removals
 //	notif     exhaustive at-most-once: all query sets of size <= 2 against single-
-//	          and multi-update/delete notifications through UpdateNotification
+//	          and multi-update/delete notifications and atomic containers through
+//	          UpdateNotification
 //	notifrand random larger query sets / notifications (keys, both encodings)
 //	history   random subscribe / unsubscribe / update histories vs. a model registry
 //	server    the server's own path construction: real Server.Subscribe (STREAM,
@@ -159,16 +160,27 @@ func lcp(all [][]string) int {
 }
 
 func buildShape(kind string, ups, dels [][]string, idx int) *shape {
+	return buildShapeAt(kind, ups, dels, idx, -1)
+}
+
+// buildShapeAt is buildShape with the prefix split given (at < 0: derived from
+// idx). A kind starting with "A" makes the notification atomic: a container
+// whose members are its updates; it is judged like any other notification, by
+// the full index paths (prefix + member path) of its members.
+func buildShapeAt(kind string, ups, dels [][]string, idx, at int) *shape {
 	s := &shape{Kind: kind, Ups: ups, Dels: dels}
 	s.all = append(append([][]string{}, ups...), dels...)
 	k := idx % (lcp(s.all) + 1)
+	if at >= 0 && at <= lcp(s.all) {
+		k = at
+	}
 	if idx%2 == 1 {
 		s.prefix = make([]string, k, k+8) // spare capacity, as path.ToStrings returns
 	} else {
 		s.prefix = make([]string, k)
 	}
 	copy(s.prefix, s.all[0][:k])
-	s.n = &pb.Notification{Timestamp: int64(idx) + 1}
+	s.n = &pb.Notification{Timestamp: int64(idx) + 1, Atomic: strings.HasPrefix(kind, "A")}
 	for _, u := range ups {
 		s.n.Update = append(s.n.Update, &pb.Update{Path: mkPath(u[k:], idx/2)})
 	}
@@ -268,12 +280,12 @@ func modePairs(r *vlib.Run) {
 				bad(v.sig, "UpdateOnce: "+v.what, p)
 			}
 			// (1c) through UpdateNotification: single update, single delete.
-			for k, kind := range []string{"U", "D"} {
+			for k, kind := range []string{"U", "D", "A"} {
 				var s *shape
-				if kind == "U" {
-					s = buildShape("U", [][]string{p}, nil, qi+pi+k)
-				} else {
+				if kind == "D" {
 					s = buildShape("D", nil, [][]string{p}, qi+pi+k)
+				} else {
+					s = buildShape(kind, [][]string{p}, nil, qi+pi+k)
 				}
 				c.n = 0
 				if pan := guard(func() { subscribe.UpdateNotification(m, s.n, s.n, s.prefix) }); pan != "" {
@@ -520,6 +532,38 @@ func notifShapes(r *vlib.Run) []*shape {
 			}
 		}
 	}
+	// Atomic containers: prefix elements + 1-3 member updates. Two out of three
+	// are split exactly at the container prefix (the way the cache hands them
+	// to the feed), the others at a split derived from the index as above.
+	addAtomic := func(kind string, pre []string, members ...[]string) {
+		var ups [][]string
+		for _, m := range members {
+			ups = append(ups, append(cp(pre), m...))
+		}
+		at := len(pre)
+		if len(out)%3 == 2 {
+			at = -1
+		}
+		out = append(out, buildShapeAt(kind, ups, nil, len(out), at))
+	}
+	for _, pre := range U2[1:] {
+		for _, m1 := range U2[1:] {
+			addAtomic("A1", pre, m1)
+			for _, m2 := range U2[1:] {
+				if r.Quick() && len(m1) > 1 {
+					continue // quick: the first of two members has one element
+				}
+				addAtomic("A2", pre, m1, m2)
+			}
+		}
+		for _, m1 := range U1[1:] {
+			for _, m2 := range U1[1:] {
+				for _, m3 := range U1[1:] {
+					addAtomic("A3", pre, m1, m2, m3)
+				}
+			}
+		}
+	}
 	return out
 }
 
@@ -530,8 +574,8 @@ func modeNotif(r *vlib.Run) {
 	Q := universe(abg, r.N(3, 4))
 	shapes := notifShapes(r)
 	probes := universe(abg, 2)
-	sample := r.N(1, 64)
-	var evals, dedup, offeredN, silentN int64
+	sample := r.N(4, 64)
+	var evals, dedup, offeredN, silentN, atomicOffered, atomicSilent int64
 	si := -1
 	runSet := func(si int, qs [][]string) {
 		bad := func(sig, what string, s *shape) {
@@ -576,6 +620,13 @@ func modeNotif(r *vlib.Run) {
 				offeredN++
 			} else {
 				silentN++
+			}
+			if s.n.Atomic {
+				if want {
+					atomicOffered++
+				} else {
+					atomicSilent++
+				}
 			}
 			if mult >= 2 {
 				dedup++
@@ -652,6 +703,8 @@ func modeNotif(r *vlib.Run) {
 	r.Count("notif_cases_dedup_needed", dedup)
 	r.Count("notif_cases_offered", offeredN)
 	r.Count("notif_cases_not_offered", silentN)
+	r.Count("notif_atomic_cases_offered", atomicOffered)
+	r.Count("notif_atomic_cases_not_offered", atomicSilent)
 	if r.Shard == 0 {
 		r.Count("notif_query_sets", int64(si+1))
 		r.Count("notif_shapes", int64(len(shapes)))
@@ -732,7 +785,14 @@ func modeNotifRand(r *vlib.Run) {
 			prefix := randPath(rng, alpha, 0.1, 2)
 			var ups, dels, all [][]string
 			n := &pb.Notification{Timestamp: int64(k) + 1}
-			for e := 1 + rng.Intn(6); e > 0; e-- {
+			entries := 1 + rng.Intn(6)
+			if rng.Intn(4) == 0 {
+				// atomic container: prefix elements + 1-3 member updates
+				n.Atomic = true
+				prefix = randPath(rng, alpha, 0.1, 3)
+				entries = 1 + rng.Intn(3)
+			}
+			for e := entries; e > 0; e-- {
 				rest := randPath(rng, alpha, 0.15, 3)
 				full := append(cp(prefix), rest...)
 				all = append(all, full)
@@ -740,7 +800,7 @@ func modeNotifRand(r *vlib.Run) {
 				if got := model.IndexPath(gp); model.Key(got) != model.Key(rest) {
 					panic(fmt.Sprintf("harness: keyedPath(%v) indexes as %v", rest, got))
 				}
-				if rng.Intn(3) == 0 {
+				if rng.Intn(3) == 0 && !n.Atomic {
 					dels = append(dels, full)
 					n.Delete = append(n.Delete, gp)
 				} else {
@@ -753,7 +813,7 @@ func modeNotifRand(r *vlib.Run) {
 			for _, c := range clients {
 				c.n = 0
 			}
-			w := map[string]interface{}{"sets": sets, "prefix": prefix, "updates": ups, "deletes": dels}
+			w := map[string]interface{}{"sets": sets, "prefix": prefix, "updates": ups, "deletes": dels, "atomic": n.Atomic}
 			if pan := guard(func() { subscribe.UpdateNotification(m, n, n, pre) }); pan != "" {
 				r.Violation("notifrand", trial, "panic:updatenotification", pan, w)
 				return
@@ -768,8 +828,15 @@ func modeNotifRand(r *vlib.Run) {
 				if mult == 0 {
 					sawSilent = true
 				}
+				if n.Atomic {
+					if mult > 0 {
+						r.Count("notifrand_atomic_offered", 1)
+					} else {
+						r.Count("notifrand_atomic_not_offered", 1)
+					}
+				}
 				if v := judge(c.n, mult > 0, true, false); v != nil {
-					r.Violation("notifrand", trial, v.sig, fmt.Sprintf("client registered with %s, notification prefix=%s updates=%s deletes=%s (%d agreeing combinations): %s", pss(sets[ci]), ps(prefix), pss(ups), pss(dels), mult, v.what), w)
+					r.Violation("notifrand", trial, v.sig, fmt.Sprintf("client registered with %s, notification atomic=%v prefix=%s updates=%s deletes=%s (%d agreeing combinations): %s", pss(sets[ci]), n.Atomic, ps(prefix), pss(ups), pss(dels), mult, v.what), w)
 					return
 				}
 			}
@@ -980,7 +1047,11 @@ func runHistory(ops []hop, nc int) (v *verdict, at int, feat map[string]bool) {
 				case "once":
 					m.UpdateOnce(i, cp(all[0]), map[match.Client]struct{}{})
 				default:
-					s := buildShape("N", o.Ups, o.Dels, i)
+					kind := "N"
+					if len(o.Dels) == 0 && i%2 == 0 {
+						kind = "A" // atomic container with the same members
+					}
+					s := buildShape(kind, o.Ups, o.Dels, i)
 					subscribe.UpdateNotification(m, s.n, s.n, s.prefix)
 				}
 			})
@@ -1167,6 +1238,7 @@ func (q sreq) specQueries() (qs [][]string, valid bool) {
 
 type snotif struct {
 	ID     int64   `json:"id"`
+	Atomic bool    `json:"atomic,omitempty"`
 	Target string  `json:"target"`
 	Prefix ppath   `json:"prefix"`
 	Ups    []ppath `json:"updates,omitempty"`
@@ -1181,11 +1253,15 @@ func (n snotif) String() string {
 		}
 		return "[" + strings.Join(s, " ") + "]"
 	}
-	return fmt.Sprintf("{target=%s prefix=%s updates=%s deletes=%s}", n.Target, n.Prefix, f(n.Ups), f(n.Dels))
+	a := ""
+	if n.Atomic {
+		a = "atomic "
+	}
+	return fmt.Sprintf("{%starget=%s prefix=%s updates=%s deletes=%s}", a, n.Target, n.Prefix, f(n.Ups), f(n.Dels))
 }
 
 func (n snotif) pb() *pb.Notification {
-	out := &pb.Notification{Timestamp: n.ID, Prefix: n.Prefix.pb(n.Target)}
+	out := &pb.Notification{Timestamp: n.ID, Prefix: n.Prefix.pb(n.Target), Atomic: n.Atomic}
 	for _, u := range n.Ups {
 		out.Update = append(out.Update, &pb.Update{Path: u.pb(""), Val: gen.S("v")})
 	}
@@ -1377,6 +1453,17 @@ func genNotif(rng *rand.Rand, id int64, reqs []sreq) snotif {
 	}
 	if n.isTargetDelete() {
 		n.Ups, n.Dels = append(n.Ups, n.Dels...), nil
+	}
+	if rng.Intn(4) == 0 {
+		// Atomic container: the members are updates only. The cache stores such
+		// a notification as one leaf at its prefix and hands that leaf to the
+		// feed, so Server.Update sees the whole notification, as here.
+		n.Atomic = true
+		n.Ups, n.Dels = append(n.Ups, n.Dels...), nil
+		for len(n.Ups) < 2 && rng.Intn(2) == 0 {
+			p := append(cp(rest), names3[rng.Intn(3)])
+			n.Ups = append(n.Ups, plain(p))
+		}
 	}
 	return n
 }
@@ -1671,6 +1758,13 @@ func modeServer(r *vlib.Run) {
 							sawSilent = true
 							r.Count("server_not_offered", 1)
 						}
+						if n.Atomic {
+							if g > 0 {
+								r.Count("server_atomic_offered", 1)
+							} else {
+								r.Count("server_atomic_not_offered", 1)
+							}
+						}
 					} else {
 						r.Count("server_unjudged_invalid_origin_request", 1)
 					}
@@ -1686,7 +1780,12 @@ func modeServer(r *vlib.Run) {
 							r.Violation("server", trial, "server-stream-vs-snapshot-"+v.sig, fmt.Sprintf("%s; snapshot paths of the same request %s: %s", where, pss(snap), v.what), witness)
 							return false
 						}
-						for _, ip := range ips {
+						leaves := ips
+						if n.Atomic {
+							// the cache stores the container as one leaf at its prefix
+							leaves = append(append([][]string{}, ips...), model.IndexPrefix(n.pb().Prefix))
+						}
+						for _, ip := range leaves {
 							hit := false
 							guard(func() {
 								t := &ctree.Tree{}
@@ -1796,10 +1895,11 @@ func main() {
 		ID: "C06",
 		Rule: "pairs (exhaustive): every (query, path) over {a,b,*}^<=4 (121 x 121) through the real trie via Update, UpdateOnce and single-update / single-delete UpdateNotification, plus ctree.Query containment on a tree holding the path as a leaf, plus remove / repeated remove / re-add on a node shared with a second client; a pair is distinct non-trivial when both sides are non-empty. " +
 			"fulltrie (exhaustive): all 121 queries in one trie with two clients each, staged removals, every path. " +
-			"notif (exhaustive): every query set of size <= 2 over {a,b,*}^<=3 (thorough <=4) against every notification shape (single update/delete over ^<=3 (thorough ^<=4); ordered pairs UU/UD/DD over ^<=2; triples UUD over ^<=1; thorough also UU pairs over ^<=3) through UpdateNotification with prefix splits and both path encodings; a case is distinct non-trivial when >= 2 (path, entry) combinations agree, i.e. de-duplication had something to do (thorough records a 1/64 systematic sample of them; the full number is counter notif_cases_dedup_needed). " +
+			"notif (exhaustive): every query set of size <= 2 over {a,b,*}^<=3 (thorough <=4) against every notification shape (single update/delete over ^<=3 (thorough ^<=4); ordered pairs UU/UD/DD over ^<=2; triples UUD over ^<=1; thorough also UU pairs over ^<=3; atomic containers: every prefix over ^{1,2} with 1 or 2 members over ^{1,2} (quick: the first of two members over ^1) or 3 members over ^1) through UpdateNotification with prefix splits and both path encodings; a case is distinct non-trivial when >= 2 (path, entry) combinations agree, i.e. de-duplication had something to do (quick records a 1/4, thorough a 1/64 systematic sample of them; the full number is counter notif_cases_dedup_needed). " +
 			"notifrand / history / server: seeded random; a notifrand trial counts when it had a notification needing de-duplication and one offered to nobody; a history counts when it contains an offer, a removal on a node shared with another client, a re-registration after removal and a judged silence after removal; a server trial counts when a request has >= 2 paths and at least one notification was streamed and one was not; concremove: 300 (thorough 6000) trials of concurrent dispatch and unsubscription.",
 		Assumptions: []string{
 			"model.Compat (agreement on every common element, '*' on either side agrees with anything) is the relation of the statement; for a plain match.Update only 'offered or not' is judged, the number of offers only where the notification goes through UpdateOnce / UpdateNotification",
+			"an atomic notification is judged like any other: offered iff a subscribed path agrees with the full index path (prefix + member path) of at least one member update, at most once (the cache hands the whole container to the feed as one leaf)",
 			"registrations are made the way the server makes them: from a slice whose backing array the caller reuses afterwards",
 			"histories never register a (client, path) pair that is still registered and never call a stale remove function after the pair was registered again (the statement leaves both open)",
 			"server mode: requests whose origins violate the gNMI mixed-schema rules (origin in prefix and path, or path origin below prefix elements; path.CompletePath rejects them) are only judged for at-most-once delivery; the target-delete shape is kept out of the workload (C14); 'offered' is observed as responses sent on the in-memory stream (1 + duplicates), a sentinel notification per target is the barrier; the 90 s watchdog only yields inconclusive",
